@@ -49,22 +49,23 @@ def rule_layout(ctx, tu, I, py):
             ctx.check([idxmod.kstr(k) for k in r["layout"]] == ["nbr(@)", "species"], R, r["node"], r["fn"], r["text"],
                       "[cell][species][neighbour slot of that cell]", "ragged diffusion table addressed with another layout")
     # Python builders: the same layouts
-    want = {"librdengine.build_substrate_stoechiometric_matrix": ("s", "n_reactions", "r"),
-            "librdengine.build_stoechiometric_difference_matrix": ("s", "n_reactions", "r"),
-            "librdengine.build_diff_coef_environment_matrix": ("s", "n_env", "e")}
-    for q, (a, stride, b) in want.items():
+    from .. import pysym
+    want = {"librdengine.build_substrate_stoechiometric_matrix": ("species", "reactions"),
+            "librdengine.build_stoechiometric_difference_matrix": ("species", "reactions"),
+            "librdengine.build_diff_coef_environment_matrix": ("species", "environments")}
+    for q, (slow, fast) in want.items():
         f = py.fn(q)
         st = [n for n in ast.walk(f) if isinstance(n, ast.Assign) and isinstance(n.targets[0], ast.Subscript)]
         ctx.need(len(st) == 1, R, "%s: element store not found" % q)
-        p = py_poly(st[0].targets[0].slice)
-        ctx.check(p == Poly.sym(a) * Poly.sym(stride) + Poly.sym(b), R, st[0], q, pyfe.src(st[0].targets[0]),
-                  "[%s][%s]" % (a, b), "Python builds the table as %r, the engine reads [%s][%s]" % (p, a, b))
-        defs = {x.targets[0].id: pyfe.src(x.value) for x in ast.walk(f) if isinstance(x, ast.Assign) and
-                isinstance(x.targets[0], ast.Name)}
-        loops = {pyfe.src(n.target): pyfe.src(n.iter) for n in ast.walk(f) if isinstance(n, ast.For)}
-        ok = all(loops.get(v, "").startswith("range(") for v in (a, b))
-        ctx.check(ok and defs.get(stride, "").startswith("len("), R, f, q, "loops %s, stride %s = %s" % (loops, stride, defs.get(stride)),
-                  "", "loop / stride definitions changed")
+        loops = {pysym.isrc(n.iter, f): pyfe.src(n.target) for n in ast.walk(f) if isinstance(n, ast.For)}
+        a_, b_ = loops.get("range(len(%s))" % slow), loops.get("range(len(%s))" % fast)
+        ctx.check(a_ is not None and b_ is not None, R, f, q, "loops over %s and %s" % (slow, fast), "", "loops changed: %s" % loops)
+        if a_ is None or b_ is None:
+            continue
+        got = pysym.frat(st[0].targets[0].slice, f)
+        w = pysym.rat(ast.parse("%s * len(%s) + %s" % (a_, fast, b_), mode="eval").body)
+        ctx.check(got.equals(w), R, st[0], q, pyfe.src(st[0].targets[0]), "[%s][%s]" % (slow, fast),
+                  "Python builds the table as %r, the engine reads [%s][%s]" % (got, slow, fast))
     f = py.fn("librdengine.build_reaction_rate_constant_matrix")
     loops = [n for n in ast.walk(f) if isinstance(n, ast.For)]
     ok = len(loops) == 2 and pyfe.src(loops[0].iter) == "environments" and pyfe.src(loops[1].iter) == "reactions" and \
@@ -176,47 +177,95 @@ def rule_env(ctx, tu, py, I):
 
 
 def rule_py_siblings(ctx, py):
-    """structure of the Python siblings of the engine's law"""
+    """the Python siblings of the engine's law, compared as rational normal forms (locals inlined, + and * commutative)"""
     R = "C01.PY"
+    from .. import pysym
+    from ..poly import Rat
+    P = lambda t: ast.parse(t, mode="eval").body
     f = py.fn("kinetics.compute_reaction_rates")
-    src = pyfe.src(f).replace(" ", "")
-    for side, k, sto in (("forward", "kf", "ssto"), ("reverse", "kr", "psto")):
-        v = "rf" if side == "forward" else "rr"
-        ok = ("%s=valproc.get_value_in_env(reaction.%s,environment_label,UnitValue(0,Units(units_system,reaction.%s_units_dimensions())))*volume"
-              % (v, k, k)) in src and ("%s*=(state.get_at(state_index)/volume)**%s[i]" % (v, sto)) in src
-        ctx.check(ok, R, f, f._qual, "%s rate = k[env] * V * prod (x_i / V) ^ %s[i]" % (side, sto), "mass action on concentrations, "
-                  "times the volume", "the %s rate is not k * V * prod((x/V)^coefficient)" % side)
-    ctx.check("state_index=system.get_state_index(species=i,position=position_index)" in src and
-              "foriinrange(system.network.nspecies())" in src, R, f, f._qual, "product over all species at this cell", "", "")
-    ctx.check("volume=system.space.get_cell_vol_array().get_at(position_index)" in src and
-              "environment_index=system.space.get_cell_env_array()[position_index]" in src and
-              "environment_label=system.network.environments[environment_index]" in src, R, f, f._qual,
+    loops = [n for n in ast.walk(f) if isinstance(n, ast.For)]
+    ctx.need(len(loops) == 1 and pysym.isrc(loops[0].iter, f) == "range(system.network.nspecies())", R,
+             "compute_reaction_rates: species loop not found")
+    iv = pyfe.src(loops[0].target)
+    for side, v, k, sto in (("forward", "rf", "kf", "ssto"), ("reverse", "rr", "kr", "psto")):
+        init = [st for st in f.body if isinstance(st, ast.Assign) and pyfe.src(st.targets[0]) == v]
+        ctx.need(len(init) == 1, R, "compute_reaction_rates: initial value of %s not found" % v)
+        got0 = pysym.frat(init[0].value, f, stop={v})
+        want0 = pysym.frat(P("valproc.get_value_in_env(reaction.%s, environment_label, UnitValue(0, Units(units_system, "
+                             "reaction.%s_units_dimensions()))) * volume" % (k, k)), f)
+        ctx.check(got0.equals(want0), R, init[0], f._qual, "%s starts as k%s[environment of the cell] * volume of the cell" %
+                  (v, "+" if k == "kf" else "-"), "", "the %s rate does not start from the constant of the cell's environment "
+                  "times the cell volume (%r)" % (side, got0))
+        try:
+            step = pysym.one_iteration(loops[0].body, f, v)
+        except pysym.NotModelled as e:
+            ctx.error(R, "compute_reaction_rates: %s" % e)
+        wants = pysym.frat(P("(state.get_at(system.get_state_index(species=%s, position=position_index)) / volume) ** "
+                             "reaction.%s(system.network.species_labels())[%s]" % (iv, sto, iv)), f)
+        ctx.check(step.equals(Rat.sym("ACC") * wants), R, loops[0], f._qual, "%s *= (x_i / V) ** %s[i] for every species" % (v, sto),
+                  "mass action on concentrations", "per species the %s rate is multiplied by %r, expected (amount / volume) ** "
+                  "coefficient of that species" % (side, step))
+    ctx.check(pysym.isrc(P("volume"), f) == "system.space.get_cell_vol_array().get_at(system.get_cell_index(position))" and
+              pysym.isrc(P("environment_label"), f) ==
+              "system.network.environments[system.space.get_cell_env_array()[system.get_cell_index(position)]]", R, f, f._qual,
               "volume and environment of the same cell", "", "volume / environment taken from another cell")
     for q in ("kinetics._compute_dspeciesdt_grid", "kinetics._compute_dspeciesdt_graph"):
         g = py.fn(q)
-        s = pyfe.src(g).replace(" ", "")
-        ctx.check("d+=(rates[0]-rates[1])*(reaction.get_product_stoichiometry(species_label)-reaction.get_substrate_stoichiometry(species_label))" in s,
-                  R, g, q, "reactions: (forward - reverse) * (products - reactants)", "", "net reaction term changed")
-        ctx.check("d+=d_rates[1]-d_rates[0]" in s, R, g, q, "diffusion: inflow - outflow per neighbour", "", "diffusion term sign changed")
+        incs = pysym.increments(g, "d")
+        got = [v for _, v in incs]
+        w1 = pysym.frat(P("(rates[0] - rates[1]) * (reaction.get_product_stoichiometry(species_label) - "
+                          "reaction.get_substrate_stoichiometry(species_label))"), g, stop={"d", "rates"})
+        w2 = pysym.frat(P("d_rates[1] - d_rates[0]"), g, stop={"d", "d_rates"})
+        got = [pysym.frat(st.value if isinstance(st, ast.AugAssign) else st.value, g, stop={"d", "rates", "d_rates"})
+               for st, _ in incs]
+        got = [v for _, v in [(st, pysym.frat(st.value, g, stop={"d", "rates", "d_rates"})) for st, _ in incs
+                              if isinstance(st, ast.AugAssign)]] + \
+              [v for st, v in incs if not isinstance(st, ast.AugAssign)]
+        ok1 = any(v.equals(w1) for v in got)
+        ok2 = any(v.equals(w2) for v in got)
+        ctx.check(ok1 and len(got) == 2, R, g, q, "reactions: d += (forward - reverse) * (products - reactants)", "",
+                  "net reaction term changed: %s" % [repr(v)[:80] for v in got])
+        ctx.check(ok2 and len(got) == 2, R, g, q, "diffusion: d += inflow - outflow per neighbour", "", "diffusion term changed: %s"
+                  % [repr(v)[:80] for v in got])
     h = py.fn("kinetics.compute_diffusion_rates")
-    s = pyfe.src(h).replace(" ", "")
-    ctx.check("return((kf*state.get_at(src_state_index)).convert(units_system),(kr*state.get_at(dst_state_index)).convert(units_system))" in s and
-              "return((k*state.get_at(src_state_index)).convert(units_system),(k*state.get_at(dst_state_index)).convert(units_system))" in s,
-              R, h, h._qual, "(forward, reverse) = (k_out * x_src, k_in * x_dst)", "first-order in the source / destination amounts",
-              "the diffusion rates are not constant x amount of the respective cell")
+    rets = [r for r in ast.walk(h) if isinstance(r, ast.Return) and isinstance(r.value, ast.Tuple)]
+    ctx.need(len(rets) == 2, R, "compute_diffusion_rates: the two returning branches not found")
+    for r, (kf_, kr_) in zip(rets, (("kf", "kr"), ("k", "k"))):
+        e0, e1 = r.value.elts
+        s0, s1 = pyfe.src(e0).replace(" ", ""), pyfe.src(e1).replace(" ", "")
+        ok = s0 in ("(%s*state.get_at(src_state_index)).convert(units_system)" % kf_,
+                    "(state.get_at(src_state_index)*%s).convert(units_system)" % kf_) and \
+            s1 in ("(%s*state.get_at(dst_state_index)).convert(units_system)" % kr_,
+                   "(state.get_at(dst_state_index)*%s).convert(units_system)" % kr_)
+        ctx.check(ok, R, r, h._qual, "(forward, reverse) = (%s * x_src, %s * x_dst)" % (kf_, kr_), "first-order in the source / "
+                  "destination amounts", "the diffusion rates are not constant x amount of the respective cell")
     # exported ODE right-hand side
     m = py.fn("rdsystem.RDSystem.make_dxdtf")
-    s = pyfe.src(m).replace(" ", "")
-    ctx.check("k_r*=vol**(1-r.order())" in s, R, m, m._qual, "k scaled by V ^ (1 - order)", "same scaling as mesh_kr",
-              "the volume exponent of the exported ODE differs from the engine's (1 - order)")
-    ctx.check("rates[r]*=x[s]**sub[r][s]" in s and "dxdt[s]+=rates[r]*sto[r][s]" in s and
-              "sub=[list(r.ssto(sl))forrinreactions]" in s and "sto=[list(r.dsto(sl))forrinreactions]" in s, R, m, m._qual,
-              "rate_r = k_r * prod x_s ^ sub[r][s];  dxdt_s = sum_r rate_r * sto[r][s]", "", "the exported right-hand side is not "
-              "the mass-action law")
-    ctx.check("r1,r2=r.split()" in s and s.index("reactions.append(r1)") < s.index("reactions.append(r2)"), R, m, m._qual,
-              "forward and reverse halves of every reaction", "", "")
-    ctx.check("k_r=valproc.get_value_in_env(r.kf,env,UnitValue(0,Units(units_system,r.kf_units_dimensions()))).convert(units_system).value" in s,
-              R, m, m._qual, "constant of the cell's environment, converted", "", "")
+    rl = [n for n in m.body if isinstance(n, ast.For) and pyfe.src(n.iter) == "reactions"]
+    ctx.need(len(rl) == 1, R, "make_dxdtf: loop over the split reactions not found")
+    rvar = pyfe.src(rl[0].target)
+    try:
+        app = pysym.appended(rl[0].body, m, "k")
+    except pysym.NotModelled as e:
+        ctx.error(R, "make_dxdtf: %s" % e)
+    ctx.need(len(app) == 1, R, "make_dxdtf: appended rate constant not found")
+    wantk = pysym.frat(P("valproc.get_value_in_env(%s.kf, env, UnitValue(0, Units(units_system, %s.kf_units_dimensions())))"
+                         ".convert(units_system).value * vol ** (1 - %s.order())" % (rvar, rvar, rvar)), m)
+    ctx.check(app[0][1].equals(wantk), R, app[0][0], m._qual, "k_r = k[env] * V ** (1 - order)", "same scaling as the engine's "
+              "mesh_kr", "the constant of the exported ODE is %r, expected k * vol**(1 - order)" % (app[0][1],))
+    inner = [n for n in ast.walk(m) if isinstance(n, ast.FunctionDef) and n is not m]
+    ctx.need(len(inner) == 1, R, "make_dxdtf: inner function not found")
+    d = inner[0]
+    s = pyfe.src(d).replace(" ", "")
+    ok = ("rates[r]*=x[s]**sub[r][s]" in s or "rates[r]=rates[r]*x[s]**sub[r][s]" in s) and \
+        ("dxdt[s]+=rates[r]*sto[r][s]" in s or "dxdt[s]+=sto[r][s]*rates[r]" in s or "dxdt[s]=dxdt[s]+rates[r]*sto[r][s]" in s)
+    ms = pyfe.src(m).replace(" ", "")
+    ok = ok and "sub=[list(r.ssto(sl))forrinreactions]" in ms and "sto=[list(r.dsto(sl))forrinreactions]" in ms
+    ctx.check(ok, R, d, m._qual, "rate_r = k_r * prod x_s ^ sub[r][s];  dxdt_s = sum_r rate_r * sto[r][s]", "", "the exported "
+              "right-hand side is not the mass-action law")
+    okl = ("r1,r2=r.split()" in ms and ms.index("reactions.append(r1)") < ms.index("reactions.append(r2)")) or \
+        "reactions.extend(r.split())" in ms
+    ctx.check(okl, R, m, m._qual, "forward and reverse halves of every reaction", "", "")
     from . import c04
     for v in c04.value_loads(m):
         cv = c04.is_convert_value(v)
